@@ -15,6 +15,8 @@ type legacyVisitor struct {
 	env     envs.Environment
 	options *MigrateOptions
 	err     error // first error migrating a function call
+
+	maxLength int // maximum length of a migrated (sub)expression, zero means no limit
 }
 
 func newLegacyVisitor(env envs.Environment, options *MigrateOptions) *legacyVisitor {
@@ -25,7 +27,17 @@ func newLegacyVisitor(env envs.Environment, options *MigrateOptions) *legacyVisi
 
 // Visit the top level parse tree
 func (v *legacyVisitor) Visit(tree antlr.ParseTree) any {
-	return tree.Accept(v)
+	value := tree.Accept(v)
+
+	// if the migrated expression has grown beyond the limit, the whole expression can't be migrated: remember that and
+	// carry on with something short so that it doesn't keep growing
+	if asString, isString := value.(string); isString && v.maxLength > 0 && len(asString) > v.maxLength {
+		if v.err == nil {
+			v.err = errTooLong
+		}
+		return "0"
+	}
+	return value
 }
 
 // precedences of the operators of the new syntax, higher binds tighter
